@@ -101,6 +101,26 @@ Proof.
   eexists. split; [vm_compute; reflexivity|]. repeat split; vm_compute; reflexivity.
 Qed.
 
+(* reader_refines with a DATE column (round 4):  $INPUT ID TIME DATE=DROP DV,  file "1,2.5,1/1/2020,5 / 1,3,1/2/2020,6":
+   the guard holds, TIME stays the text 2.5 / 3 although both items are numbers; with the third column called
+   WGT=DROP instead the same file gives the numbers 5/2 and 3 *)
+Definition date_text : str :=
+  [49%N; 44%N; 50%N; 46%N; 53%N; 44%N; 49%N; 47%N; 49%N; 47%N; 50%N; 48%N; 50%N; 48%N; 44%N; 53%N; 10%N; 49%N; 44%N; 51%N; 44%N; 49%N; 47%N; 50%N; 47%N; 50%N; 48%N; 50%N; 48%N; 44%N; 54%N; 10%N].
+Definition date_input (third : str) : input :=
+  mkInput date_text [(s_ID, None); (s_TIME, None); (third, Some s_DROP); (s_DV, None)] None None [] [] (s_of [45;57;57]).
+Example date_column_example :
+  guard (date_input s_DATE) = true /\
+  spec_read (date_input s_DATE) =
+    Ok [(s_ID, [CNum 1; CNum 1]); (s_TIME, [CStr (s_of [50;46;53]); CStr (s_of [51])]); (s_DV, [CNum 5; CNum 6])] /\
+  project_kept (date_input s_DATE) (read_model (date_input s_DATE)) = spec_read (date_input s_DATE) /\
+  guard (date_input (s_of [87;71;84])) = true /\
+  (exists t, spec_read (date_input (s_of [87;71;84])) = Ok t /\
+     forallb (fun cq => q_eq_cell (fst cq) (snd cq)) (combine (nth 1 (map snd t) []) [5 # 2; 3 # 1]) = true).
+Proof.
+  split; [vm_compute; reflexivity|]. split; [vm_compute; reflexivity|]. split; [vm_compute; reflexivity|].
+  split; [vm_compute; reflexivity|]. eexists. split; vm_compute; reflexivity.
+Qed.
+
 (* write_read_cycle: a toy printer (integers and halves, "x.0" / "x.5"), a table with a missing
    value, a negative value and an int32 id column; the guard holds and the cycle returns the table *)
 Definition cy_hdr : list str := [s_ID; s_TIME; s_DV; s_of [87;71;84]].
